@@ -35,13 +35,23 @@ data model id/text/start_date/end_date/parent/progress, source/target/type, pare
 
 Not decided: Mermaid's grammar (`}}`, `#`, `;`, line breaks in names), CSS/style attribute text, the columns JSON, title /
 tickInterval text, whether WBS.tasks and roots+all_children really enumerate each task once (C01/C05), numeric values.  A link counter
-stepped *after* its use is accepted (ids stay unique).  Idioms outside the recognised ones (lines collected in a list and joined,
-an `emitted` flag instead of a predecessor test, helpers with loops that build part of the text) end as UNDECIDED, never as a pass.
+stepped *after* its use is accepted (ids stay unique).  Idioms outside the recognised ones (an `emitted` flag instead of a
+predecessor test, helpers with several returns / try blocks that build part of the text, enumerate() targets) end as UNDECIDED,
+never as a pass; "nothing found" (no task line / edge / dateFormat) is a violation only when every piece of the text was readable.
+
+Shapes read through (round 3): the text / the payload lists are analysed on a canonical copy of the body function (`Canon`):
+`return A + B`, lines collected in a list and joined (`xs.append`, `xs.extend`, `sep.join(xs)`), `''.join(<comprehension | generator
+| map>)`, text built by a private method / module function with loops (one trailing return, or a generator with `yield`),
+`data = [entry(t) for ..]`, `data.append(self.entry(t))`; a partial text collected in a second local accumulator (the shape
+the engine's normaliser leaves after splicing a helper) counts as emissions of the main one (`Acc`); DHTMLX links produced by a
+second complete loop over the tasks; `substitute(**mapping)` / `substitute(dict(..))`; task domains spelled as an unfiltered
+comprehension.  A task list cached on the chart object by __init__ (`self.x = wbs.tasks`) and rendered later is refuted (stale).
 
 Engine limitations worked around here (helpers below, nothing under sa/ was changed): string-building normalisation (`parts`),
 inlining of multi-statement single-return helpers (`deep`), path enumeration with event counts (`paths`, DESIGN 3.7 is not in
 sa/), structural loop nesting (`loop_chains`), accumulator recognition (`Acc`), a propositional evaluator for branch conditions,
-and pattern matching of calls that carry keywords (sa.pat's `$*args` does not cover keywords).
+pattern matching of calls that carry keywords (sa.pat's `$*args` does not cover keywords), and statement-level splicing of
+helpers called in expression position / comprehension -> loop rewriting (`Canon`, reuses sa.normalize.Normalizer.block_of).
 """
 from __future__ import annotations
 
@@ -234,8 +244,11 @@ def removes(chain, ch: str) -> bool:
 
 # ---------------------------------------------------------------------------------------------------- deep expansion
 def helper_of(ctx, f: Func, call: ast.Call) -> Optional[Func]:
-    """same-class helper called as self.h(..) / Cls.h(..) / cls.h(..)"""
+    """same-class helper called as self.h(..) / Cls.h(..) / cls.h(..), or a function of the same module called by name"""
     fn = call.func
+    if isinstance(fn, ast.Name):
+        h = ctx.prog.module_func(f.module.name, fn.id)
+        return h if h is not None and h.kind == 'function' else None
     if not (isinstance(fn, ast.Attribute) and isinstance(fn.value, ast.Name) and f.cls):
         return None
     if fn.value.id not in (f.self_name, f.cls, 'cls', 'self'):
@@ -314,7 +327,7 @@ def deep(ctx, f: Func, expr: ast.AST, at=None, depth=0) -> ast.AST:
         def visit_Call(self, n):
             self.generic_visit(n)
             h = helper_of(ctx, f, n)
-            if h is None or h is f:
+            if h is None or h == f:
                 return n
             body = single_return_value(ctx, h, depth)
             sub = _bind(h, n) if body is not None else None
@@ -459,30 +472,84 @@ def stmt_of(fnode, node) -> Optional[ast.stmt]:
 
 
 # --------------------------------------------------------------------------------------------------------- accumulator
-class Acc:
-    """`acc = <text>` once, then `acc += X` / `acc = acc + X`, and every return returns acc"""
+def _blocks(fnode) -> Dict[int, Tuple[list, int]]:
+    """id(statement) -> (the statement list that holds it, its index there)"""
+    out: Dict[int, Tuple[list, int]] = {}
 
-    def __init__(self, ctx, f: Func):
+    def rec(body):
+        for i, st in enumerate(body):
+            out[id(st)] = (body, i)
+            if isinstance(st, (ast.FunctionDef, ast.AsyncFunctionDef, ast.ClassDef)):
+                continue
+            for fld in ('body', 'orelse', 'finalbody'):
+                b = getattr(st, fld, None)
+                if isinstance(b, list):
+                    rec(b)
+            for h in getattr(st, 'handlers', []) or []:
+                rec(h.body)
+            for c in getattr(st, 'cases', []) or []:
+                rec(c.body)
+    rec(fnode.body)
+    return out
+
+
+def _leaves_block(stmts) -> bool:
+    """a return, or a break/continue that belongs to a loop outside `stmts`"""
+    def rec(body, depth):
+        for st in body:
+            if isinstance(st, (ast.FunctionDef, ast.AsyncFunctionDef, ast.ClassDef)):
+                continue
+            if isinstance(st, ast.Return):
+                return True
+            if isinstance(st, (ast.Break, ast.Continue)) and depth == 0:
+                return True
+            loop = isinstance(st, (ast.For, ast.AsyncFor, ast.While))
+            for fld in ('body', 'orelse', 'finalbody'):
+                b = getattr(st, fld, None)
+                if isinstance(b, list) and rec(b, depth + (1 if loop and fld == 'body' else 0)):
+                    return True
+            for h in getattr(st, 'handlers', []) or []:
+                if rec(h.body, depth):
+                    return True
+        return False
+    return rec(stmts, 0)
+
+
+class Acc:
+    """`acc = <text>` once, then `acc += X` / `acc = acc + X`, and every return returns acc.
+
+    A part of the text that is first collected in a second local accumulator (`head = ..; head += ..; acc = head` or
+    `acc += head`, the shape left by a spliced helper) is read through: the emissions into `head` count as emissions
+    into `acc` when `head` is created and consumed in the same statement list, is filled only in between, and is used
+    nowhere else."""
+
+    def __init__(self, ctx, f: Func, name: Optional[str] = None, _outer: Tuple[str, ...] = ()):
         self.func = f
-        rets = [n for n in walk_no_nested(f.node) if isinstance(n, ast.Return)]
-        names = {r.value.id if isinstance(r.value, ast.Name) else None for r in rets}
-        if not rets or len(names) != 1 or None in names:
-            raise Und(f, f.node, 'return', "the function does not return one string accumulator variable built with `+=`")
-        self.name = names.pop()
+        if name is None:
+            rets = [n for n in walk_no_nested(f.node) if isinstance(n, ast.Return)]
+            names = {r.value.id if isinstance(r.value, ast.Name) else None for r in rets}
+            if not rets or len(names) != 1 or None in names:
+                raise Und(f, f.node, 'return', "the function does not return one string accumulator variable built with `+=`")
+            name = names.pop()
+        self.name = name
         self.emits: List[Tuple[ast.stmt, ast.AST]] = []
+        self.own: set = set()          # Name nodes of the accumulator that belong to its own init / update statements
         inits = []
         for n in walk_no_nested(f.node):
             if isinstance(n, ast.AugAssign) and isinstance(n.target, ast.Name) and n.target.id == self.name:
                 if not isinstance(n.op, ast.Add):
                     raise Und(f, n, n, "accumulator updated with an operator other than +=")
                 self.emits.append((n, n.value))
+                self.own.add(id(n.target))
             elif isinstance(n, ast.Assign) and any(isinstance(x, ast.Name) and x.id == self.name
                                                    for t in n.targets for x in ast.walk(t)):
                 if len(n.targets) != 1 or not isinstance(n.targets[0], ast.Name):
                     raise Und(f, n, n, "accumulator bound by an unpacking / chained assignment")
                 v = n.value
+                self.own.add(id(n.targets[0]))
                 if isinstance(v, ast.BinOp) and isinstance(v.op, ast.Add) and isinstance(v.left, ast.Name) and v.left.id == self.name:
                     self.emits.append((n, v.right))
+                    self.own.add(id(v.left))
                 else:
                     inits.append(n)
             elif isinstance(n, (ast.For, ast.AsyncFor)) and any(isinstance(x, ast.Name) and x.id == self.name for x in ast.walk(n.target)):
@@ -496,13 +563,481 @@ class Acc:
             raise Und(f, self.init, self.init, "accumulator initialised from itself")
         cfg = cfg_of(f)
         n0 = cfg.node_of(self.init)
-        if n0 is None or cfg.enclosing_loops(n0):
+        if n0 is None or (cfg.enclosing_loops(n0) and not _outer):
             raise Und(f, self.init, self.init, "accumulator initialised inside a loop")
         for st, _ in self.emits:
             n1 = cfg.node_of(st)
             if n1 is None or not cfg.dominates(n0, n1):
                 raise Und(f, st, st, "an emission is not preceded by the accumulator's initialisation on every path")
-        self.all = [(self.init, self.init.value)] + self.emits
+        self.all = []
+        for st, v in [(self.init, self.init.value)] + self.emits:
+            ps = _concat(v)
+            subs = [self._sub_accumulator(ctx, st, p_, _outer) for p_ in ps]
+            if not any(subs):
+                self.all.append((st, v))
+                continue
+            for p_, sub in zip(ps, subs):
+                if sub is None:
+                    self.all.append((st, p_))
+                else:
+                    self.all += sub.all
+
+    def _sub_accumulator(self, ctx, use: ast.stmt, v: ast.AST, outer) -> Optional['Acc']:
+        f = self.func
+        if not isinstance(v, ast.Name) or v.id == self.name or v.id in outer:
+            return None
+        built = any((isinstance(n, ast.AugAssign) and isinstance(n.target, ast.Name) and n.target.id == v.id) or
+                    (isinstance(n, ast.Assign) and len(n.targets) == 1 and isinstance(n.targets[0], ast.Name) and
+                     n.targets[0].id == v.id and isinstance(n.value, ast.BinOp) and isinstance(n.value.left, ast.Name) and
+                     n.value.left.id == v.id) for n in walk_no_nested(f.node))
+        if not built:
+            return None                   # a plain local: the Expander resolves it
+        sub = Acc(ctx, f, v.id, outer + (self.name,))
+        other = [n for n in walk_no_nested(f.node, include_lambdas=True)
+                 if isinstance(n, ast.Name) and n.id == v.id and n is not v and id(n) not in sub.own]
+        if other:
+            st = stmt_of(f.node, other[0])
+            raise Und(f, st or use, f"{v.id}: other use", f"the partial text `{v.id}` is also used in `{src(st or other[0])[:60]}`")
+        blocks = _blocks(f.node)
+        b0, b1 = blocks.get(id(sub.init)), blocks.get(id(use))
+        if b0 is None or b1 is None or b0[0] is not b1[0] or b0[1] >= b1[1]:
+            raise Und(f, use, use, f"the partial text `{v.id}` is not created and consumed in the same block")
+        between = b0[0][b0[1] + 1:b1[1]]
+        inside = {id(x) for st in between for x in ast.walk(st)}
+        if any(id(st) not in inside for st, _ in sub.emits):
+            raise Und(f, use, use, f"the partial text `{v.id}` is extended outside the statements between its creation and its use")
+        if _leaves_block(between):
+            raise Und(f, use, use, f"control may leave between the creation of the partial text `{v.id}` and its use")
+        return sub
+
+
+# --------------------------------------------------------------------------------------------------------- canonical form
+def _join_of(e: ast.AST):
+    """(separator, argument) of `'<sep>'.join(<arg>)`"""
+    if isinstance(e, ast.Call) and isinstance(e.func, ast.Attribute) and e.func.attr == 'join' and len(e.args) == 1 and \
+            not e.keywords and const_str(e.func.value) is not None:
+        return const_str(e.func.value), e.args[0]
+    return None
+
+
+def _concat(e: ast.AST) -> List[ast.AST]:
+    if isinstance(e, ast.BinOp) and isinstance(e.op, ast.Add):
+        return _concat(e.left) + _concat(e.right)
+    return [e]
+
+
+def _name(n: str, store=False) -> ast.Name:
+    return ast.Name(id=n, ctx=ast.Store() if store else ast.Load())
+
+
+def _with_sep(v: ast.AST, sep: str) -> ast.AST:
+    return v if not sep else ast.BinOp(left=v, op=ast.Add(), right=ast.Constant(value=sep))
+
+
+class Canon:
+    """Rewrites a copy of a text-building function into the shape the rule reads: one string accumulator filled by `+=`
+    statements inside explicit loops.  Only behaviour-preserving steps (up to a trailing separator of `sep.join`):
+
+      return A + B                      ->  _text = A + B; return _text; the pieces are split when one needs a step below
+      acc += ''.join(self.h(..))        ->  the statements of h (locals renamed), acc += ''.join(<its return value>)
+      acc += self.h(..)                     (h: loops / accumulators and one trailing return; other helpers are left to `deep`)
+      acc += ''.join([E for x in X if c]) -> for x in X: if c: acc += E                 (also generator expressions and map(fn, X))
+      xs = []; xs.append(v); xs.extend([..]); acc += ''.join(xs)  ->  xs = ''; xs += v; ...; acc += xs
+
+    Nothing is decided here.  A function that needs none of the steps is returned unchanged (same object)."""
+
+    def __init__(self, ctx, f: Func):
+        self.ctx, self.f0 = ctx, f
+        self.node = copy.deepcopy(f.node)
+        self.k = 0
+        self.touched = False
+        self.dead: set = set()          # id of pieces that could not be rewritten
+        self._nz = None
+        self._gen: Dict[str, Optional[Func]] = {}
+
+    # ------------------------------------------------------------------ helpers
+    def fresh(self, base: str) -> str:
+        self.k += 1
+        return f"{base}__c{self.k}"
+
+    def as_list_builder(self, h: Func) -> Optional[Func]:
+        """a generator helper (`yield v` statements, no return, no `yield from`) read as `_y = []; _y.append(v); return _y`"""
+        ys = [n for n in walk_no_nested(h.node) if isinstance(n, (ast.Yield, ast.YieldFrom))]
+        if not ys:
+            return h
+        if h.qual in self._gen:
+            return self._gen[h.qual]
+        self._gen[h.qual] = None
+        if any(isinstance(n, ast.YieldFrom) or n.value is None for n in ys) or \
+                any(isinstance(n, ast.Return) for n in walk_no_nested(h.node)):
+            return None
+        node = copy.deepcopy(h.node)
+        seen = []
+
+        class T(ast.NodeTransformer):
+            def visit_Expr(self, st):
+                if isinstance(st.value, ast.Yield):
+                    seen.append(st)
+                    return ast.copy_location(ast.Expr(value=ast.Call(func=ast.Attribute(value=_name('_yielded'), attr='append', ctx=ast.Load()),
+                                                                     args=[st.value.value], keywords=[])), st)
+                return st
+
+            def visit_FunctionDef(self, n):
+                return self.generic_visit(n) if n is node else n
+        T().visit(node)
+        if len(seen) != len(ys):
+            return None                      # a yield used as an expression
+        node.body = [ast.copy_location(ast.Assign(targets=[_name('_yielded', True)], value=ast.List(elts=[], ctx=ast.Load())), node)] + \
+            node.body + [ast.copy_location(ast.Return(value=_name('_yielded')), node)]
+        ast.fix_missing_locations(node)
+        import dataclasses
+        self._gen[h.qual] = dataclasses.replace(h, node=node)
+        return self._gen[h.qual]
+
+    def spliceable(self, call: ast.AST) -> Optional[Func]:
+        if not isinstance(call, ast.Call):
+            return None
+        h = helper_of(self.ctx, self.f0, call)
+        if h is None or h == self.f0 or not isinstance(h.node, ast.FunctionDef):
+            return None
+        h = self.as_list_builder(h)
+        if h is None:
+            return None
+        rets = [n for n in walk_no_nested(h.node) if isinstance(n, ast.Return)]
+        if len(rets) != 1 or h.body[-1] is not rets[0] or rets[0].value is None:
+            return None
+        if single_return_value(self.ctx, h) is not None:
+            return None                     # `deep` inlines it as an expression
+        if any(isinstance(n, (ast.Yield, ast.YieldFrom, ast.Try, ast.With, ast.FunctionDef, ast.Lambda, ast.Global, ast.Nonlocal))
+               for n in ast.walk(h.node) if n is not h.node):
+            return None
+        if any(isinstance(n, ast.Call) and helper_of(self.ctx, h, n) == h for n in ast.walk(h.node)):
+            return None
+        return h
+
+    def complex_piece(self, p: ast.AST) -> bool:
+        if id(p) in self.dead:
+            return False
+        j = _join_of(p)
+        a = j[1] if j else p
+        if j and isinstance(a, (ast.ListComp, ast.GeneratorExp, ast.Name)):
+            return True
+        if j and isinstance(a, ast.Call) and isinstance(a.func, ast.Name) and a.func.id == 'map' and len(a.args) == 2:
+            return True
+        return self.spliceable(a) is not None
+
+    def text_names(self) -> set:
+        names = {r.value.id for r in walk_no_nested(self.node) if isinstance(r, ast.Return) and isinstance(r.value, ast.Name)}
+        grew = True
+        while grew:
+            grew = False
+            for st in walk_no_nested(self.node):
+                e = self.emission(st)
+                if e and e[0] in names:
+                    for p in _concat(e[2]):
+                        j = _join_of(p)
+                        a = j[1] if j else p
+                        if isinstance(a, ast.Name) and a.id not in names:
+                            names.add(a.id)
+                            grew = True
+        return names
+
+    @staticmethod
+    def emission(st):
+        """(accumulator, is_init, value) of `a = v`, `a += v`, `a = a + v`"""
+        if isinstance(st, ast.AugAssign) and isinstance(st.op, ast.Add) and isinstance(st.target, ast.Name):
+            return st.target.id, False, st.value
+        if isinstance(st, ast.Assign) and len(st.targets) == 1 and isinstance(st.targets[0], ast.Name):
+            a, v = st.targets[0].id, st.value
+            if isinstance(v, ast.BinOp) and isinstance(v.op, ast.Add) and isinstance(v.left, ast.Name) and v.left.id == a:
+                return a, False, v.right
+            return a, True, v
+        return None
+
+    @staticmethod
+    def emit(a: str, init: bool, v: ast.AST, at) -> ast.stmt:
+        st = ast.Assign(targets=[_name(a, True)], value=v) if init else ast.AugAssign(target=_name(a, True), op=ast.Add(), value=v)
+        return ast.copy_location(st, at)
+
+    # ------------------------------------------------------------------ driver
+    def run(self) -> Func:
+        self.return_expression()
+        for _ in range(10):
+            self.changed = False
+            self.lists_to_text()
+            names = self.text_names()
+            self.node.body = self.block(self.node.body, names)
+            if not self.changed:
+                break
+            self.touched = True
+        if not self.touched:
+            return self.f0
+        ast.fix_missing_locations(self.node)
+        import dataclasses
+        return dataclasses.replace(self.f0, node=self.node)
+
+    def return_expression(self):
+        rets = [n for n in walk_no_nested(self.node) if isinstance(n, ast.Return)]
+        if len(rets) != 1 or self.node.body[-1] is not rets[0] or rets[0].value is None or isinstance(rets[0].value, ast.Name):
+            return
+        r = rets[0]
+        self.node.body[-1:] = [self.emit('_text', True, r.value, r), ast.copy_location(ast.Return(value=_name('_text')), r)]
+        self.touched = True
+
+    def block(self, stmts: List[ast.stmt], names: set) -> List[ast.stmt]:
+        out: List[ast.stmt] = []
+        for st in stmts:
+            if isinstance(st, (ast.FunctionDef, ast.AsyncFunctionDef, ast.ClassDef)):
+                out.append(st)
+                continue
+            for fld in ('body', 'orelse', 'finalbody'):
+                b = getattr(st, fld, None)
+                if isinstance(b, list) and b and isinstance(b[0], ast.stmt):
+                    setattr(st, fld, self.block(b, names))
+            for h in getattr(st, 'handlers', []) or []:
+                h.body = self.block(h.body, names)
+            e = self.emission(st)
+            new = self.rewrite(st, *e) if e and e[0] in names else None
+            if new is None:
+                out.append(st)
+            else:
+                out.extend(new)
+                self.changed = True
+        return out
+
+    def rewrite(self, st, a: str, init: bool, v: ast.AST) -> Optional[List[ast.stmt]]:
+        ps = _concat(v)
+        if not any(self.complex_piece(p) for p in ps):
+            return None
+        if len(ps) > 1:
+            return [self.emit(a, init and i == 0, p, st) for i, p in enumerate(ps)]
+        p = ps[0]
+        j = _join_of(p)
+        sep, arg = j if j else (None, p)
+        if j and isinstance(arg, ast.Call) and isinstance(arg.func, ast.Name) and arg.func.id == 'map':
+            x = self.fresh('x')
+            arg = ast.GeneratorExp(elt=ast.Call(func=arg.args[0], args=[_name(x)], keywords=[]),
+                                   generators=[ast.comprehension(target=_name(x, True), iter=arg.args[1], ifs=[], is_async=0)])
+        if j and isinstance(arg, (ast.ListComp, ast.GeneratorExp)):
+            body = self.comp_loops(arg, lambda elt: self.emit(a, False, _with_sep(elt, sep), st), st)
+            return ([self.emit(a, True, ast.Constant(value=''), st)] if init else []) + body
+        h = self.spliceable(arg)
+        if h is not None:
+            blk = self.splice(h, arg, st)
+            if blk is None:
+                self.dead.add(id(p))
+                return None
+            pre, val = blk
+            if j:
+                val = ast.Call(func=ast.Attribute(value=ast.Constant(value=sep), attr='join', ctx=ast.Load()), args=[val], keywords=[])
+            return pre + [self.emit(a, init, val, st)]
+        self.dead.add(id(p))
+        return None
+
+    def comp_loops(self, comp, leaf, at) -> List[ast.stmt]:
+        """`[E for x in X if c for y in Y]` as nested loops around leaf(E); the comprehension's variables get fresh names"""
+        ren = {}
+        for g in comp.generators:
+            for x in ast.walk(g.target):
+                if isinstance(x, ast.Name):
+                    ren[x.id] = self.fresh(x.id)
+        comp = copy.deepcopy(comp)
+        for x in ast.walk(comp):
+            if isinstance(x, ast.Name) and x.id in ren:
+                x.id = ren[x.id]
+        body: List[ast.stmt] = [leaf(comp.elt)]
+        for g in reversed(comp.generators):
+            for c in reversed(g.ifs):
+                body = [ast.copy_location(ast.If(test=c, body=body, orelse=[]), at)]
+            body = [ast.copy_location(ast.For(target=g.target, iter=g.iter, body=body, orelse=[]), at)]
+        return body
+
+    # ------------------------------------------------------------------ list-of-entries builders (DHTMLX payload)
+    def run_lists(self) -> Func:
+        """x = [E for ..] / x.extend(E for ..) -> loops with x.append(E);  x.append(self.h(..)) -> statements of h, x.append(<value>)"""
+        for _ in range(6):
+            self.changed = False
+            lists = {n.id for d in ast.walk(self.node) if isinstance(d, ast.Dict) for n in d.values if isinstance(n, ast.Name)}
+            self.node.body = self.list_block(self.node.body, lists)
+            if not self.changed:
+                break
+            self.touched = True
+        if not self.touched:
+            return self.f0
+        ast.fix_missing_locations(self.node)
+        import dataclasses
+        return dataclasses.replace(self.f0, node=self.node)
+
+    def list_block(self, stmts: List[ast.stmt], lists: set) -> List[ast.stmt]:
+        out: List[ast.stmt] = []
+
+        def append_to(x, at):
+            return lambda elt: ast.copy_location(ast.Expr(value=ast.Call(
+                func=ast.Attribute(value=_name(x), attr='append', ctx=ast.Load()), args=[elt], keywords=[])), at)
+        for st in stmts:
+            if isinstance(st, (ast.FunctionDef, ast.AsyncFunctionDef, ast.ClassDef)):
+                out.append(st)
+                continue
+            for fld in ('body', 'orelse', 'finalbody'):
+                b = getattr(st, fld, None)
+                if isinstance(b, list) and b and isinstance(b[0], ast.stmt):
+                    setattr(st, fld, self.list_block(b, lists))
+            new = None
+            if isinstance(st, ast.Assign) and len(st.targets) == 1 and isinstance(st.targets[0], ast.Name) and \
+                    st.targets[0].id in lists and isinstance(st.value, ast.ListComp):
+                x = st.targets[0].id
+                new = [self.emit(x, True, ast.List(elts=[], ctx=ast.Load()), st)] + self.comp_loops(st.value, append_to(x, st), st)
+            elif isinstance(st, ast.Expr) and isinstance(st.value, ast.Call) and isinstance(st.value.func, ast.Attribute) and \
+                    isinstance(st.value.func.value, ast.Name) and st.value.func.value.id in lists and len(st.value.args) == 1 and \
+                    not st.value.keywords:
+                x, a = st.value.func.value.id, st.value.args[0]
+                if st.value.func.attr == 'extend' and isinstance(a, (ast.ListComp, ast.GeneratorExp)):
+                    new = self.comp_loops(a, append_to(x, st), st)
+                elif st.value.func.attr == 'append' and id(a) not in self.dead:
+                    h = self.spliceable(a)
+                    if h is not None:
+                        blk = self.splice(h, a, st)
+                        if blk is None:
+                            self.dead.add(id(a))
+                        else:
+                            new = blk[0] + [append_to(x, st)(blk[1])]
+            if new is None:
+                out.append(st)
+            else:
+                out.extend(new)
+                self.changed = True
+        return out
+
+    def splice(self, h: Func, call: ast.Call, at) -> Optional[Tuple[List[ast.stmt], ast.AST]]:
+        from sa import normalize
+        sub = _bind(h, call)
+        if sub is None:
+            return None
+        if self._nz is None:
+            self._nz = normalize.Normalizer({})
+            self._nz.counter = 900
+        fd = normalize.FD(h.qual, h.node, h.module.name, h.cls, 'static')      # receiver already bound by _bind
+        tmp = self.fresh('_part')
+        try:
+            blk = self._nz.block_of(fd, sub, tmp, at)
+        except Exception:
+            return None
+        if not blk:
+            return None
+        last = blk[-1]
+        if not (isinstance(last, ast.Assign) and len(last.targets) == 1 and isinstance(last.targets[0], ast.Name) and
+                last.targets[0].id == tmp):
+            return None
+        if any(isinstance(n, ast.Name) and n.id == tmp for s_ in blk[:-1] for n in ast.walk(s_)):
+            return None
+        return blk[:-1], last.value
+
+    # ------------------------------------------------------------------ list accumulators joined into the text
+    def lists_to_text(self):
+        names = self.text_names()
+        for st in list(walk_no_nested(self.node)):
+            e = self.emission(st)
+            if not e or e[0] not in names:
+                continue
+            for p in _concat(e[2]):
+                j = _join_of(p)
+                if j and isinstance(j[1], ast.Name) and id(p) not in self.dead:
+                    if self.list_to_text(j[1].id, j[0], p):
+                        self.changed = True
+                    else:
+                        self.dead.add(id(p))
+
+    def list_to_text(self, x: str, sep: str, use: ast.Call) -> bool:
+        """`x` is created once as a list display, only appended to / extended, and read by this one join"""
+        plan: Dict[int, List[ast.stmt]] = {}
+        ok_names = {id(use.args[0])}
+        inits = 0
+        for st in walk_no_nested(self.node):
+            if isinstance(st, (ast.Assign, ast.AnnAssign)):
+                tg = st.targets[0] if isinstance(st, ast.Assign) and len(st.targets) == 1 else getattr(st, 'target', None)
+                if isinstance(tg, ast.Name) and tg.id == x and st.value is not None:
+                    v = st.value
+                    if match("list()", v):
+                        v = ast.List(elts=[], ctx=ast.Load())
+                    if not isinstance(v, ast.List) or any(isinstance(el, ast.Starred) for el in v.elts):
+                        return False
+                    inits += 1
+                    txt: ast.AST = ast.Constant(value='')
+                    for el in v.elts:
+                        piece = _with_sep(el, sep)
+                        txt = piece if (isinstance(txt, ast.Constant) and txt.value == '') else ast.BinOp(left=txt, op=ast.Add(), right=piece)
+                    plan[id(st)] = [self.emit(x, True, txt, st)]
+                    ok_names.add(id(tg))
+            elif isinstance(st, ast.Expr) and isinstance(st.value, ast.Call) and isinstance(st.value.func, ast.Attribute) and \
+                    isinstance(st.value.func.value, ast.Name) and st.value.func.value.id == x:
+                c = st.value
+                if c.func.attr == 'append' and len(c.args) == 1 and not c.keywords:
+                    plan[id(st)] = [self.emit(x, False, _with_sep(c.args[0], sep), st)]
+                elif c.func.attr == 'extend' and len(c.args) == 1 and not c.keywords:
+                    new = self.extend_text(x, sep, c.args[0], st)
+                    if new is None:
+                        return False
+                    plan[id(st)] = new
+                else:
+                    return False
+                ok_names.add(id(c.func.value))
+            elif isinstance(st, ast.AugAssign) and isinstance(st.target, ast.Name) and st.target.id == x:
+                if not isinstance(st.op, ast.Add):
+                    return False
+                new = self.extend_text(x, sep, st.value, st)
+                if new is None:
+                    return False
+                plan[id(st)] = new
+                ok_names.add(id(st.target))
+        if inits != 1:
+            return False
+        if any(isinstance(n, ast.Name) and n.id == x and id(n) not in ok_names for n in walk_no_nested(self.node, include_lambdas=True)):
+            return False
+
+        def rec(body):
+            out = []
+            for st in body:
+                if id(st) in plan:
+                    out.extend(plan[id(st)])
+                    continue
+                if not isinstance(st, (ast.FunctionDef, ast.AsyncFunctionDef, ast.ClassDef)):
+                    for fld in ('body', 'orelse', 'finalbody'):
+                        b = getattr(st, fld, None)
+                        if isinstance(b, list) and b and isinstance(b[0], ast.stmt):
+                            setattr(st, fld, rec(b))
+                    for h in getattr(st, 'handlers', []) or []:
+                        h.body = rec(h.body)
+                out.append(st)
+            return out
+        self.node.body = rec(self.node.body)
+
+        class T(ast.NodeTransformer):
+            def visit_Call(self, n):
+                if n is use:
+                    return ast.copy_location(_name(x), n)
+                return self.generic_visit(n)
+        T().visit(self.node)
+        return True
+
+    def extend_text(self, x: str, sep: str, v: ast.AST, at) -> Optional[List[ast.stmt]]:
+        if isinstance(v, (ast.List, ast.Tuple)) and not any(isinstance(el, ast.Starred) for el in v.elts):
+            return [self.emit(x, False, _with_sep(el, sep), at) for el in v.elts] or [ast.copy_location(ast.Pass(), at)]
+        if isinstance(v, (ast.ListComp, ast.GeneratorExp)):
+            el = copy.deepcopy(v)
+            el.elt = _with_sep(el.elt, sep)
+            j = ast.Call(func=ast.Attribute(value=ast.Constant(value=''), attr='join', ctx=ast.Load()), args=[el], keywords=[])
+            return [self.emit(x, False, j, at)]
+        return None
+
+
+def canonical(ctx, f: Func, lists: bool = False) -> Func:
+    cache = ctx.__dict__.setdefault('_c19_canonical', {})
+    if f.qual not in cache:
+        try:
+            cache[f.qual] = Canon(ctx, f).run_lists() if lists else Canon(ctx, f).run()
+        except RecursionError:
+            cache[f.qual] = f
+    return cache[f.qual]
 
 
 # --------------------------------------------------------------------------------------------------------- logic
@@ -635,8 +1170,74 @@ def wbs_attr(ctx, R) -> str:
     raise Und(init, init.node, '__init__', "the constructor does not store its WBS parameter in an attribute")
 
 
+_SUBTREE = ("{r}.all_children + [{r}]", "[{r}, *{r}.all_children]", "[*{r}.all_children, {r}]", "list({r}.all_children) + [{r}]",
+            "[{r}] + list({r}.all_children)")
+
+
 def is_all_tasks(e: ast.AST, f: Func, wattr: str) -> bool:
-    return bool(match(f"{f.self_name}.{wattr}.tasks", strip_seq(e)))
+    """self.wbs.tasks, possibly copied (`list(..)`, `[t for t in ..]`) or spelled as roots x (all_children + [root])"""
+    e = strip_seq(e)
+    if match(f"{f.self_name}.{wattr}.tasks", e):
+        return True
+    if isinstance(e, (ast.ListComp, ast.GeneratorExp)) and not any(g.ifs or g.is_async for g in e.generators) and \
+            all(isinstance(g.target, ast.Name) for g in e.generators) and isinstance(e.elt, ast.Name) and \
+            e.elt.id == e.generators[-1].target.id:
+        gs = e.generators
+        if len(gs) == 1:
+            return is_all_tasks(gs[0].iter, f, wattr)
+        if len(gs) == 2 and match(f"{f.self_name}.{wattr}.roots", strip_seq(gs[0].iter)):
+            r = gs[0].target.id
+            return any(match(p_.format(r=r), strip_seq(gs[1].iter)) for p_ in _SUBTREE)
+    return False
+
+
+def stale_snapshot(ctx, f: Func, w: str, it: ast.AST) -> Optional[str]:
+    """`self.X` that only the constructor fills with `<wbs>.tasks`: the task list as it was when the chart was created"""
+    it = strip_seq(it)
+    if not (isinstance(it, ast.Attribute) and isinstance(it.value, ast.Name) and it.value.id == f.self_name and it.attr != w and f.cls):
+        return None
+    ci = ctx.prog.classes.get(f.cls)
+    if ci is None:
+        return None
+    stores = []
+    for g in list(ci.methods.values()) + list(ci.getters.values()) + list(ci.setters.values()):
+        for st, tgt, val in facts.attr_stores(g, it.attr):
+            if not (isinstance(tgt.value, ast.Name) and tgt.value.id == g.self_name) or val is None or not isinstance(st, (ast.Assign, ast.AnnAssign)):
+                return None
+            stores.append((g, st, val))
+    if not stores or any(g.name != '__init__' for g, _, _ in stores):
+        return None
+    for g, st, val in stores:
+        v = strip_seq(deep(ctx, g, val, flow_of(g).node_of_expr(val)))
+        a = g.node.args
+        anns = {x.arg: (src(x.annotation) if x.annotation is not None else None) for x in a.args + a.kwonlyargs}
+        from_param = isinstance(v, ast.Attribute) and v.attr == 'tasks' and isinstance(v.value, ast.Name) and \
+            v.value.id in anns and (anns[v.value.id] == 'WBS' or v.value.id == 'wbs')
+        if not (from_param or match(f"{g.self_name}.{w}.tasks", v)):
+            return None
+    g, st, val = stores[0]
+
+    def pretty(x):
+        return re.sub(r'\b_' + re.escape(f.cls.lstrip('_')) + '__', '__', src(x))
+    return (f"`{pretty(it)}` is the task list taken once in {g.name} (`{pretty(st)[:60]}`), not self.{w}.tasks at rendering "
+            f"time: tasks added to or removed from the WBS (or a WBS assigned to self.{w}) after the chart was created are "
+            f"rendered stale")
+
+
+def domain_problem(ctx, f: Func, w: str, it: ast.AST) -> Optional[str]:
+    """why `it` is positively NOT every task of self.<w>.tasks (None: all tasks, or not understood)"""
+    it = strip_seq(it)
+    snap = stale_snapshot(ctx, f, w, it)
+    if snap:
+        return snap
+    if match(f"{f.self_name}.{w}.$a", it) and not is_all_tasks(it, f, w):
+        return f"`{unmangle(src(it))[:70]}` is not every task of self.{w}.tasks"
+    if isinstance(it, (ast.ListComp, ast.GeneratorExp)) and any(g.ifs for g in it.generators) and \
+            (is_all_tasks(it.generators[0].iter, f, w) or match(f"{f.self_name}.{w}.$a", strip_seq(it.generators[0].iter))):
+        return f"`{src(it)[:70]}` filters the tasks of self.{w}: some tasks are skipped"
+    if isinstance(it, ast.Subscript) and is_all_tasks(it.value, f, w):
+        return f"`{src(it)[:70]}` is a slice / element of self.{w}.tasks, not every task"
+    return None
 
 
 def for_iter(ctx, f: Func, loop: ast.For) -> ast.AST:
@@ -682,16 +1283,26 @@ def substitute_call(ctx, R):
     if not m:
         raise Und(f, c, c.func.value, "substitute() receiver is not Template(<text>)")
     kws = {}
-    if any(k.arg is None for k in c.keywords) or len(c.args) > 1:
-        raise Und(f, c, c, "substitute() called with **mapping / several positional arguments")
+    if len(c.args) > 1:
+        raise Und(f, c, c, "substitute() called with several positional arguments")
+
+    def mapping(e):
+        if isinstance(e, ast.Name) and e.id in mutated_locals(f):
+            raise Und(f, c, e, "substitute() mapping is modified after its creation")
+        d = origin(f, e, flow_of(f).node_of_expr(c))[0]
+        if isinstance(d, ast.Call) and isinstance(d.func, ast.Name) and d.func.id == 'dict' and not d.args and \
+                all(k.arg is not None for k in d.keywords):
+            return {k.arg: k.value for k in d.keywords}
+        if isinstance(d, ast.Dict) and all(k is not None and const_str(k) is not None for k in d.keys):
+            return {const_str(k): v for k, v in zip(d.keys, d.values)}
+        raise Und(f, c, e, "substitute() mapping is not a dict literal / dict(name=..) with constant keys")
     if c.args:
-        d = deep(ctx, f, c.args[0], flow_of(f).node_of_expr(c))
-        if not (isinstance(d, ast.Dict) and all(k is not None and const_str(k) is not None for k in d.keys)):
-            raise Und(f, c, c.args[0], "substitute() mapping is not a dict literal with constant keys")
-        for k, v in zip(d.keys, d.values):
-            kws[const_str(k)] = v
+        kws.update(mapping(c.args[0]))
     for k in c.keywords:
-        kws[k.arg] = k.value
+        if k.arg is None:
+            kws.update(mapping(k.value))
+        else:
+            kws[k.arg] = k.value
     rets = [r for r in walk_no_nested(f.node) if isinstance(r, ast.Return)]
     returned = len(rets) == 1 and rets[0].value is not None and \
         any(x is c for x in ast.walk(rets[0].value)) or \
@@ -887,6 +1498,24 @@ def emissions(ctx, f: Func, acc: Acc, opaque_pred) -> List[Emission]:
     return out
 
 
+def opaque_values(ctx, f: Func, e: 'Emission') -> List[ast.AST]:
+    """values of an emission whose text the rule cannot see: calls of package helpers that were not inlined, bare locals"""
+    out = []
+    fl = flow_of(f)
+    for v in vals(e.parts):
+        bound = {x.id for n in ast.walk(v) if isinstance(n, ast.comprehension) for x in ast.walk(n.target) if isinstance(x, ast.Name)}
+        for x in ast.walk(v):
+            if isinstance(x, ast.Name) and isinstance(x.ctx, ast.Load) and x.id not in bound:
+                ds = fl.defs_of(x.id)
+                if ds and not all(d.kind in ('for', 'unpack', 'param') for d in ds):
+                    out.append(v)         # a local the Expander could not resolve (loop variables / parameters are data)
+                    break
+            elif isinstance(x, ast.Call) and helper_of(ctx, f, x) is not None:
+                out.append(v)
+                break
+    return out
+
+
 def line_roles(ctx, f: Func, ps):
     """classify the value parts of a task line: [(role, expr, extra)]"""
     roles = []
@@ -924,7 +1553,7 @@ def line_roles(ctx, f: Func, ps):
 class Gantt:
     def __init__(self, ctx):
         self.ctx = ctx
-        self.f = f = ctx.prog.func(qual(GANTT, '__src'))
+        self.f = f = canonical(ctx, ctx.prog.func(qual(GANTT, '__src')))
         self.w = wbs_attr(ctx, GANTT)
         self.acc = Acc(ctx, f)
         self.em = emissions(ctx, f, self.acc, lambda n: isinstance(n, ast.Attribute) and n.attr == 'strftime')
@@ -964,6 +1593,13 @@ def check_partition(ctx, o, G: Gantt, M: str, reader: ast.For) -> bool:
             if match(f"{M}.items()", it) or match(f"{M}.values()", it) or match(f"{M}.keys()", it) or match(M, it) or \
                     match(f"{M}[$k]", it):
                 consumed |= {id(n) for n in ast.walk(st.iter) if isinstance(n, ast.Name) and n.id == M}
+    for par in walk_no_nested(f.node, include_lambdas=True):
+        kids = []
+        if isinstance(par, ast.Call) and isinstance(par.func, ast.Name) and par.func.id in ('len', 'bool') and not par.keywords:
+            kids = par.args
+        elif isinstance(par, (ast.If, ast.While, ast.IfExp)):
+            kids = [par.test.operand if isinstance(par.test, ast.UnaryOp) and isinstance(par.test.op, ast.Not) else par.test]
+        consumed |= {id(k_) for k_ in kids if isinstance(k_, ast.Name) and k_.id == M}
     for n in walk_no_nested(f.node, include_lambdas=True):
         if isinstance(n, ast.Name) and n.id == M and id(n) not in consumed:
             other.append(n)
@@ -987,9 +1623,9 @@ def check_partition(ctx, o, G: Gantt, M: str, reader: ast.For) -> bool:
         raise Und(f, B, f"{M}: fill loop", "the loop filling the section map is not `for <name> in ..`")
     it = for_iter(ctx, f, B)
     if not is_all_tasks(it, f, G.w):
-        wrong = match(f"{f.self_name}.{G.w}.$a", strip_seq(it)) or isinstance(it, (ast.ListComp, ast.Subscript))
+        wrong = domain_problem(ctx, f, G.w, it)
         if wrong:
-            o.refute(f, B, f"{M}: fill domain", f"the section map is filled from `{src(it)[:60]}`, not from every task of self.wbs.tasks")
+            o.refute(f, B, f"{M}: fill domain", f"the section map is filled from `{src(it)[:60]}`, not from every task of self.wbs.tasks: {wrong}")
             return False
         raise Und(f, B, f"{M}: fill domain", f"cannot tell whether `{src(it)[:60]}` enumerates every task exactly once")
     ok = True
@@ -1031,7 +1667,12 @@ def gantt_once(ctx, o):
     f = G.f
     n0 = _bad(o)
     if not G.lines:
-        o.refute(f, f.node, '__src: no task line', "no text carrying task start/end dates is ever appended to the Gantt source")
+        blind = next((x for e in G.em for x in opaque_values(ctx, f, e)), None)
+        if blind is not None:
+            o.undecided(f, f.node, '__src: task lines not found', f"no text carrying task start/end dates is appended directly, but part "
+                                                                    f"of the text comes from `{src(blind)[:60]}`, which the rule cannot read")
+        else:
+            o.refute(f, f.node, '__src: no task line', "no text carrying task start/end dates is ever appended to the Gantt source")
         return
     by_loop: Dict[int, Tuple[ast.stmt, List[Emission]]] = {}
     for e in G.lines:
@@ -1117,10 +1758,9 @@ def gantt_once(ctx, o):
                     units[id(P)] = P
                     o.site(f, P, f"sectioned: per key of `{M}` one header and one task line per task of the group")
                 continue
-        wrong = match(f"{f.self_name}.{G.w}.$a", strip_seq(it)) or isinstance(strip_seq(it), ast.ListComp) or \
-            (isinstance(strip_seq(it), ast.Subscript) and is_all_tasks(strip_seq(it).value, f, G.w))
+        wrong = domain_problem(ctx, f, G.w, it)
         if wrong:
-            o.refute(f, L, L.iter, f"task lines are emitted for `{src(it)[:70]}`, which is not every task of self.{G.w}.tasks")
+            o.refute(f, L, L.iter, f"task lines are emitted for `{src(it)[:70]}`, which is not every task of self.{G.w}.tasks: {wrong}")
         else:
             o.undecided(f, L, L.iter, f"cannot tell whether `{src(it)[:70]}` enumerates every task exactly once")
     if _bad(o) > n0:
@@ -1219,7 +1859,10 @@ def gantt_formats(ctx, o):
     G = Gantt(ctx)
     f = G.f
     if not G.lines:
-        o.refute(f, f.node, '__src: no task line', "no task line is emitted")
+        if any(opaque_values(ctx, f, e) for e in G.em):
+            o.undecided(f, f.node, '__src: task lines not found', "no task line is emitted directly; part of the text is built elsewhere")
+        else:
+            o.refute(f, f.node, '__src: no task line', "no task line is emitted")
         return
     fmts = []
     for e in G.lines:
@@ -1323,13 +1966,14 @@ def gantt_formats(ctx, o):
     # ---- dateFormat directive
     dfs = [e for e in G.em if 'dateFormat' in e.text]
     if not dfs:
-        o.refute(f, f.node, "dateFormat: missing", "the Gantt source has no `dateFormat` directive: Mermaid parses the dates as YYYY-MM-DD")
+        blind = next((x for e in G.em if e not in G.lines for x in opaque_values(ctx, f, e)), None)
+        if blind is not None:
+            o.undecided(f, f.node, "dateFormat: not found", f"no `dateFormat` directive among the literal text of __src, but part of the "
+                                                            f"text comes from `{src(blind)[:60]}`, which the rule cannot read")
+        else:
+            o.refute(f, f.node, "dateFormat: missing", "the Gantt source has no `dateFormat` directive: Mermaid parses the dates as YYYY-MM-DD")
         return
-    rest = [e for e in dfs if e.stmt is not G.acc.init]
-    if len(rest) != len(dfs) and rest:
-        o.refute(f, f.node, "dateFormat: twice", "more than one dateFormat directive")
-        return
-    if rest and not once_per_call(o, f, {id(e.stmt): 'dateFormat' for e in rest}, 'dateFormat', 'dateFormat directive'):
+    if not once_per_call(o, f, {id(e.stmt): 'dateFormat' for e in dfs}, 'dateFormat', 'dateFormat directive'):
         return
     for e in dfs:
         m = re.search(r'dateFormat[ \t]+([^\n]*)\n', e.text)
@@ -1402,14 +2046,19 @@ class Edge:
 
 
 def check_network(ctx, o, osk):
-    f = ctx.prog.func(qual(NET, '__src'))
+    f = canonical(ctx, ctx.prog.func(qual(NET, '__src')))
     n0 = _bad(o)
     w = wbs_attr(ctx, NET)
     acc = Acc(ctx, f)
     em = emissions(ctx, f, acc, lambda n: isinstance(n, ast.Constant) and isinstance(n.value, str) and '-->' in n.value)
     edges = [Edge(e, f) for e in em if '-->' in e.text]
     if not edges:
-        o.refute(f, f.node, '__src: no edge', "no `-->` edge line is ever appended to the flowchart source")
+        blind = next((x for e in em for x in opaque_values(ctx, f, e)), None)
+        if blind is not None:
+            o.undecided(f, f.node, '__src: edges not found', f"no `-->` edge line is appended directly, but part of the text comes from "
+                                                             f"`{src(blind)[:60]}`, which the rule cannot read")
+        else:
+            o.refute(f, f.node, '__src: no edge', "no `-->` edge line is ever appended to the flowchart source")
         return
     chains = loop_chains(f.node)
     cfg = cfg_of(f)
@@ -1420,9 +2069,9 @@ def check_network(ctx, o, osk):
         if T is None:
             if C and isinstance(C[0], ast.For):
                 it = strip_seq(for_iter(ctx, f, C[0]))
-                if match(f"{f.self_name}.{w}.$a", it) or isinstance(it, ast.ListComp) or \
-                        (isinstance(it, ast.Subscript) and is_all_tasks(it.value, f, w)):
-                    o.refute(f, C[0], C[0].iter, f"edges are emitted for `{src(it)[:70]}`, which is not every task of self.{w}.tasks")
+                wrong = domain_problem(ctx, f, w, it)
+                if wrong:
+                    o.refute(f, C[0], C[0].iter, f"edges are emitted for `{src(it)[:70]}`, which is not every task of self.{w}.tasks: {wrong}")
                     continue
             o.undecided(f, ed.stmt, ed.stmt, "an edge line is emitted outside a loop over self.wbs.tasks")
             continue
@@ -1765,7 +2414,7 @@ def list_container(o, f: Func, name: str, payload: ast.AST):
 def check_dhtmlx(ctx, O):
     o, oj, ofm, osk = O['once'], O['json'], O['formats'], O['sinks']
     prog = ctx.prog
-    f = prog.func(qual(DHX, '__data'))
+    f = canonical(ctx, prog.func(qual(DHX, '__data')), lists=True)
     w = wbs_attr(ctx, DHX)
     cfg, fl = cfg_of(f), flow_of(f)
     chains = loop_chains(f.node)
@@ -1826,7 +2475,7 @@ def check_dhtmlx(ctx, O):
     try:
         tf, tc, tpl, kws, _ = substitute_call(ctx, DHX)
         rel, text = template_text(ctx, tf, tpl)
-        ph = [k for k, v in kws.items() if any(isinstance(x, ast.Call) and helper_of(ctx, tf, x) is f for x in ast.walk(v))]
+        ph = [k for k, v in kws.items() if any(isinstance(x, ast.Call) and helper_of(ctx, tf, x) == f for x in ast.walk(v))]
         if text is not None and len(ph) == 1:
             pos = [mm.start() for mm in _PLACEHOLDER.finditer(text) if (mm.group('named') or mm.group('braced')) == ph[0]]
             low = text.lower()
@@ -1896,11 +2545,15 @@ def check_dhtmlx(ctx, O):
                 o.refute(f, L1, L1.iter, f"`{hdr(L1)}` visits only direct children: deeper tasks get no entry (expected all_children + [root])")
             elif match(f"[{r}]", it1):
                 o.refute(f, L1, L1.iter, f"`{hdr(L1)}` visits only the root")
+            elif match(f"{r}.predecessors", it1) or match(f"{r}.successors", it1):
+                o.refute(f, L0, L0.iter, f"`{hdr(L0)}` / `{hdr(L1)}` handles only the root tasks of the WBS: the {what} of every deeper "
+                                         f"task is missing (expected a loop over the root's all_children + [root], or self.{w}.tasks)")
             else:
                 o.undecided(f, L1, L1.iter, f"cannot tell whether `{src(it1)[:60]}` enumerates the subtree of `{r}` exactly once")
             return None
-        if match(f"{s}.{w}.$a", it0) or isinstance(it0, ast.ListComp) or (isinstance(it0, ast.Subscript) and is_all_tasks(it0.value, f, w)):
-            o.refute(f, L0, L0.iter, f"`{hdr(L0)}` does not enumerate every task of the WBS")
+        wrong = domain_problem(ctx, f, w, it0)
+        if wrong:
+            o.refute(f, L0, L0.iter, f"`{hdr(L0)}` does not enumerate every task of the WBS: {wrong}")
             return None
         o.undecided(f, L0, L0.iter, f"cannot tell whether `{src(it0)[:60]}` enumerates every task exactly once")
         return None
@@ -1934,13 +2587,32 @@ def check_dhtmlx(ctx, O):
         o.refute(f, f.node, f"{B}.append: none", f"nothing is ever appended to `{B}`: dependencies are not rendered")
         return
     Pl = None
+    Lk, kloops, tk = L, loops, t
+    data_loops = loops
     for st, arg in lapps:
         C = chains[id(st)]
-        if not (len(C) >= len(loops) and all(a is b for a, b in zip(loops, C))):
-            o.refute(f, st, f"{B}.append: outside the task loop", f"`{src(st)[:50]}` is not executed per task and predecessor "
-                                                                   f"(enclosing loops: {', '.join(hdr(x) for x in C) or 'none'})")
-            return
-        rest = C[len(loops):]
+        if len(C) >= len(data_loops) and all(a is b for a, b in zip(data_loops, C)):
+            rest = C[len(data_loops):]
+        else:
+            # a second pass over the tasks: it must be a complete task loop of its own
+            if not C:
+                o.refute(f, st, f"{B}.append: outside the task loop", f"`{src(st)[:50]}` is not executed per task and predecessor "
+                                                                       f"(enclosing loops: none)")
+                return
+            dom = domain(C, 'link', st)
+            if dom is None:
+                return
+            L2, rest, loops2 = dom
+            if kloops is not data_loops and loops2[0] is not kloops[0]:
+                o.undecided(f, st, st, f"`{B}` is filled by two different task loops")
+                return
+            if kloops is data_loops:
+                if len(loops2) == 2 and not per_iteration(o, f, loops2[0], {id(L2): 'subtree'}, 'subtree', 'loop over the root\'s subtree'):
+                    return
+                if not once_per_call(o, f, {id(loops2[0]): 'unit'}, 'unit', 'loop appending the links'):
+                    return
+            Lk, kloops = L2, loops2
+            tk = Lk.target.id
         if len(rest) != 1 or not isinstance(rest[0], ast.For) or not isinstance(rest[0].target, ast.Name):
             if not rest:
                 o.refute(f, st, f"{B}.append: per task", f"`{src(st)[:50]}` runs once per task, outside a loop over the task's "
@@ -1953,18 +2625,18 @@ def check_dhtmlx(ctx, O):
             return
         Pl = rest[0]
     itp = strip_seq(for_iter(ctx, f, Pl))
-    if not match(f"{t}.predecessors", itp):
-        if match(f"{t}.$a", itp) or isinstance(itp, (ast.ListComp, ast.Subscript)):
-            o.refute(f, Pl, Pl.iter, f"links are produced for `{src(itp)[:60]}` instead of every element of `{t}.predecessors`")
+    if not match(f"{tk}.predecessors", itp):
+        if match(f"{tk}.$a", itp) or isinstance(itp, (ast.ListComp, ast.Subscript)):
+            o.refute(f, Pl, Pl.iter, f"links are produced for `{src(itp)[:60]}` instead of every element of `{tk}.predecessors`")
         else:
-            o.undecided(f, Pl, Pl.iter, f"cannot relate `{src(itp)[:60]}` to `{t}.predecessors`")
+            o.undecided(f, Pl, Pl.iter, f"cannot relate `{src(itp)[:60]}` to `{tk}.predecessors`")
         return
     p = Pl.target.id
     if not per_iteration(o, f, Pl, {id(st): 'link' for st, _ in lapps}, 'link', f"{B}.append"):
         return
-    if not per_iteration(o, f, L, {id(Pl): 'ploop'}, 'ploop', 'loop over the predecessors'):
+    if not per_iteration(o, f, Lk, {id(Pl): 'ploop'}, 'ploop', 'loop over the predecessors'):
         return
-    o.site(f, Pl, f"one {B}.append per `{p}` of {t}.predecessors")
+    o.site(f, Pl, f"one {B}.append per `{p}` of {tk}.predecessors")
     counter_ok = True
     for st, arg in lapps:
         d0, at = origin(f, arg, fl.node_of_expr(arg))
@@ -1974,13 +2646,13 @@ def check_dhtmlx(ctx, O):
             counter_ok = False
             continue
         sv, tv = deep(ctx, f, it['source'], at), deep(ctx, f, it['target'], at)
-        if match(f"{t}.id", sv) and match(f"{p}.id", tv):
-            o.refute(f, st, "link: source/target swapped", f"the link runs from the task to its predecessor (source={t}.id, "
+        if match(f"{tk}.id", sv) and match(f"{p}.id", tv):
+            o.refute(f, st, "link: source/target swapped", f"the link runs from the task to its predecessor (source={tk}.id, "
                                                            f"target={p}.id): the dependency is reversed")
             counter_ok = False
-        elif not (match(f"{p}.id", sv) and match(f"{t}.id", tv)):
+        elif not (match(f"{p}.id", sv) and match(f"{tk}.id", tv)):
             o.refute(f, st, f"link: source={src(sv)} target={src(tv)}", f"the link is source=`{src(sv)}`, target=`{src(tv)}`; "
-                                                                        f"expected source={p}.id (predecessor), target={t}.id")
+                                                                        f"expected source={p}.id (predecessor), target={tk}.id")
             counter_ok = False
         if 'type' in it:
             ty = it['type']
